@@ -106,7 +106,7 @@ package server
 //@ ensures[gone] !(id in dom(s.cs))
 //@ ensures[wf] csWF(s)
 //@ assigns s.cs[id]
-//@ props C09 C11:lock
+//@ props C09 C04 C11:lock
 
 //@ unit Server.getClientState
 //@ requires csWF(s)
@@ -173,7 +173,7 @@ package server
 //@ ensures[remembers] result1 == nil ==> s.cs[id].lastElecID == elecID
 //@ ensures[wf] csWF(s)
 //@ assigns s.curElecID, s.curMaster, s.cs[id].lastElecID
-//@ props C05 C09 C11:lock C11:ensures#running-max C11:ensures#master-highest C11:ensures#lower-ignored
+//@ props C05 C04 C09 C11:lock C11:ensures#running-max C11:ensures#master-highest C11:ensures#lower-ignored
 
 //@ unit Server.updateParams
 //@ requires csWF(s) && params != nil
